@@ -76,6 +76,21 @@ def gen_platelist(rng, files, complete):
         for j in range(k):
             rows.append({'plate': f['plate'], 'mjd': f['mjd'], 'run2d': RUN2D, 'run1d': RUN1D, 'ntotal': max(1, nt - j)})
     rng.shuffle(rows)
+    # a re-observed plate: the row of an OLDER night comes first in the table and carries another fibre count - the count that
+    # matters is the one of the latest night
+    for p in {f['plate'] for f in files}:
+        ms = sorted({f['mjd'] for f in files if f['plate'] == p})
+        if len(ms) < 2:
+            continue
+        mine = [i for i, r in enumerate(rows) if r['plate'] == p and r['run2d'] == RUN2D and r['run1d'] == RUN1D]
+        late = [i for i in mine if rows[i]['mjd'] == ms[-1]]
+        old = [i for i in mine if rows[i]['mjd'] in ms[:-1]]
+        if late and old:
+            i_old, i_late = old[0], late[0]
+            if rows[i_old]['ntotal'] == rows[i_late]['ntotal']:
+                rows[i_old]['ntotal'] = max(1, rows[i_late]['ntotal'] - 1) if rows[i_late]['ntotal'] > 1 else 2
+            if i_old > i_late:
+                rows[i_old], rows[i_late] = rows[i_late], rows[i_old]
     return rows
 
 
